@@ -34,7 +34,7 @@ Qed.
 
 Lemma recs_process_evidences : forall p evs s seen s', process_evidences p s evs seen = Ok s' -> s_recs s' = s_recs s.
 Proof.
-  induction evs as [|[round signer] r IH]; intros s seen s' H; cbn [process_evidences] in H.
+  induction evs as [|[[round signer] differ] r IH]; intros s seen s' H; cbn [process_evidences] in H.
   - inv H. reflexivity.
   - repeat (break_match; try discriminate); eauto.
     destruct (do_penalize p s PDoubleSign v _) eqn:E; cbn [rbind] in H; [|discriminate].
